@@ -230,6 +230,8 @@ class CallGraph:
                                         self.repo.resolve_qualified(f'{v.module}.{a.name}'), f'{v.module}.{a.name}')
                         elif isinstance(v, (ast.Name, ast.Attribute)):
                             out += self.resolve_expr(v, f, module, depth + 1)
+                        elif self._table_functions(v, module) is not None:
+                            out += self._table_functions(v, module)
                         else:
                             out.append(Target('unknown', name=f'local:{name}'))
                     return out or [Target('unknown', name=f'local:{name}')]
@@ -323,7 +325,35 @@ class CallGraph:
             return [Target('unknown', name=f'module:{r[1].name}')]
         return [Target('unknown', name=label)]
 
+    def _table_functions(self, v: ast.AST, module: Module) -> Optional[List[Target]]:
+        """TABLE[key] / TABLE.get(key[, default]) with TABLE a module-level dict literal whose values are functions of
+        the package: every function in the table (dispatch tables)."""
+        tab = None
+        if isinstance(v, ast.Subscript) and isinstance(v.value, ast.Name):
+            tab = v.value.id
+        elif isinstance(v, ast.Call) and isinstance(v.func, ast.Attribute) and v.func.attr == 'get' and isinstance(v.func.value, ast.Name):
+            tab = v.func.value.id
+        if tab is None:
+            return None
+        r = self.repo.resolve_name(module, tab)
+        if r[0] != 'const' or not isinstance(r[1].constants[r[2]], ast.Dict):
+            return None
+        out: List[Target] = []
+        for x in r[1].constants[r[2]].values:
+            if not isinstance(x, ast.Name):
+                return None
+            rx = self.repo.resolve_name(r[1], x.id)
+            if rx[0] != 'func':
+                return None
+            if not any(t.func is rx[2] for t in out):
+                out.append(Target('func', func=rx[2]))
+        return out or None
+
     def resolve_call(self, call: ast.Call, fi: Optional[FuncInfo], module: Optional[Module] = None) -> List[Target]:
+        if isinstance(call.func, (ast.Subscript, ast.Call)):
+            t = self._table_functions(call.func, module or fi.module)
+            if t is not None:
+                return t
         return self.resolve_expr(call.func, fi, module or fi.module)
 
     # -- class solving (param and attribute classes) -----------------------------------------
